@@ -126,14 +126,15 @@ if PR + "PrintStatementRule._is_test_file" not in _api.REGISTRY:
     class PrintStatementsIsTestFileFallback:
         def value(file_path):
             return has_test_marker(path_str(file_path))
-@lemma(props=["C09"], types=dict(d=Str), name="rust-default-ignore-ignores-project-location")
-def rust_default_ignore_location(d):
+@lemma(props=["C09"], types=dict(pre=Str), name="rust-default-ignore-ignores-project-location")
+def rust_default_ignore_location(pre):
     """unwrap-abuse / clone-abuse / blocking-async default ignore list ["examples/", "benches/", "tests/"], posed for a
-    project directly below a directory `d` and its file src/x.rs.
+    project directly below any directory whose name ends in `tests` (pre + "tests") and its file src/x.rs.
     EXPECTED TO FAIL (C09-substring-ignore-sees-parent-dirs)."""
-    if not comp_ok(d):
+    if "/" in pre:
         return True
-    return call(LU + "is_ignored_path", d + "/src/x.rs", RUST_DEFAULT_IGNORE) == call(LU + "is_ignored_path", "src/x.rs", RUST_DEFAULT_IGNORE)
+    return call(LU + "is_ignored_path", pre + "tests" + "/src/x.rs", RUST_DEFAULT_IGNORE) == \
+        call(LU + "is_ignored_path", "src/x.rs", RUST_DEFAULT_IGNORE)
 
 
 @lemma(props=["C09"], types=dict(pats=SeqOf(Str), pre=Str, rel=Str), name="substring-ignore-location-adjusted")
@@ -146,21 +147,22 @@ def substring_ignore_location_adjusted(pats, pre, rel):
     return implies(call(LU + "is_ignored_path", rel, pats), call(LU + "is_ignored_path", pre + "/" + rel, pats))
 
 
-@lemma(props=["C09"], types=dict(d=Str), name="magic-numbers-test-file-ignores-project-location")
-def mn_test_file_location(d):
-    """EXPECTED TO FAIL (C09-test-marker-in-parent-dirs): the TypeScript test-file exemption is a substring test."""
-    if not comp_ok(d) or not loc_ok(d, "src/x.ts"):
+@lemma(props=["C09"], types=dict(pre=Str), name="magic-numbers-test-file-ignores-project-location")
+def mn_test_file_location(pre):
+    """Posed for a project directly below any directory whose name ends in `test_` (e.g. test_area... / my_test_).
+    EXPECTED TO FAIL (C09-test-marker-in-parent-dirs): the TypeScript test-file exemption is a substring test."""
+    if "/" in pre or not loc_ok(pre + "test_", "src/x.ts"):
         return True
-    return call(MN + "MagicNumberRule._is_test_file", None, as_path(d + "/" + "src/x.ts")) == \
+    return call(MN + "MagicNumberRule._is_test_file", None, as_path(pre + "test_" + "/" + "src/x.ts")) == \
         call(MN + "MagicNumberRule._is_test_file", None, as_path("src/x.ts"))
 
 
-@lemma(props=["C09"], types=dict(d=Str), name="print-statements-test-file-ignores-project-location")
-def pr_test_file_location(d):
+@lemma(props=["C09"], types=dict(pre=Str), name="print-statements-test-file-ignores-project-location")
+def pr_test_file_location(pre):
     """EXPECTED TO FAIL (C09-test-marker-in-parent-dirs-print)."""
-    if not comp_ok(d) or not loc_ok(d, "src/x.ts"):
+    if "/" in pre or not loc_ok(pre + "test_", "src/x.ts"):
         return True
-    return call(PR + "PrintStatementRule._is_test_file", None, as_path(d + "/" + "src/x.ts")) == \
+    return call(PR + "PrintStatementRule._is_test_file", None, as_path(pre + "test_" + "/" + "src/x.ts")) == \
         call(PR + "PrintStatementRule._is_test_file", None, as_path("src/x.ts"))
 
 
@@ -189,10 +191,13 @@ CtxLite = Rec("ctx", file_path=PathT)
 from contracts.c16_srp import SRPConfigT  # noqa: E402
 
 
-@contract(SRP + "SRPRule._is_file_ignored", props=["C09", "C16"], types=dict(context=CtxLite, config=SRPConfigT), returns=Bool)
-class SrpIsFileIgnored:
-    def value(context, config):
-        return any(pattern in path_str(context.file_path) for pattern in config.ignore)
+# SRPRule._is_file_ignored: contract in contracts/c16_srp.py (value = any(pattern in str(context.file_path) ...)); local
+# equivalent only while that file does not provide it
+if SRP + "SRPRule._is_file_ignored" not in _api.REGISTRY:
+    @contract(SRP + "SRPRule._is_file_ignored", props=["C09", "C16"], types=dict(context=CtxLite, config=SRPConfigT), returns=Bool)
+    class SrpIsFileIgnoredFallback:
+        def value(context, config):
+            return any(pattern in path_str(context.file_path) for pattern in config.ignore)
 
 
 def srp_config(pat):
@@ -216,15 +221,16 @@ class DryIsIgnored:
         return any(pattern in norm_str(file_path) for pattern in ignore_patterns)
 
 
-@lemma(props=["C09"], types=dict(d=Str, pat=Str), name="dry-ignore-ignores-project-location")
-def dry_ignore_location(d, pat):
-    """EXPECTED TO FAIL (C09-dry-ignore-sees-parent-dirs)."""
-    if not comp_ok(d) or not loc_ok(d, "src/x.py") or not comp_ok(pat):
+@lemma(props=["C09"], types=dict(d=Str), name="dry-ignore-ignores-project-location")
+def dry_ignore_location(d):
+    """Posed with the ignore pattern equal to the name of the directory above the project.
+    EXPECTED TO FAIL (C09-dry-ignore-sees-parent-dirs)."""
+    if not comp_ok(d) or not loc_ok(d, "src/x.py"):
         return True
     as_path(d + "/" + "src/x.py")
     as_path("src/x.py")
-    return call(DRYV + "ViolationGenerator._is_ignored", None, d + "/" + "src/x.py", [pat]) == \
-        call(DRYV + "ViolationGenerator._is_ignored", None, "src/x.py", [pat])
+    return call(DRYV + "ViolationGenerator._is_ignored", None, d + "/" + "src/x.py", [d]) == \
+        call(DRYV + "ViolationGenerator._is_ignored", None, "src/x.py", [d])
 
 
 def sti_spec(s, pats):
@@ -241,12 +247,13 @@ class StringlyIsIgnored:
         return sti_spec(path_str(file_path), ignore_patterns) == sti_spec(path_str(file_path), rest)
 
 
-@lemma(props=["C09"], types=dict(d=Str, pat=Str), name="stringly-ignore-ignores-project-location")
-def stringly_ignore_location(d, pat):
-    """EXPECTED TO FAIL (C09-stringly-ignore-sees-parent-dirs)."""
-    if not comp_ok(d) or not loc_ok(d, "src/x.py") or not comp_ok(pat):
+@lemma(props=["C09"], types=dict(d=Str), name="stringly-ignore-ignores-project-location")
+def stringly_ignore_location(d):
+    """Posed with the ignore pattern equal to the name of the directory above the project.
+    EXPECTED TO FAIL (C09-stringly-ignore-sees-parent-dirs)."""
+    if not comp_ok(d) or not loc_ok(d, "src/x.py"):
         return True
-    return call(STI + "is_ignored", as_path(d + "/" + "src/x.py"), [pat]) == call(STI + "is_ignored", as_path("src/x.py"), [pat])
+    return call(STI + "is_ignored", as_path(d + "/" + "src/x.py"), [d]) == call(STI + "is_ignored", as_path("src/x.py"), [d])
 
 
 @contract(SLA + "_is_in_tests_directory", props=["C09"], types=dict(path_str=Str), returns=Bool)
@@ -255,13 +262,13 @@ class StatelessInTestsDirectory:
         return "/tests/" in path_str or "\\tests\\" in path_str or path_str.startswith("tests/") or path_str.startswith("tests\\")
 
 
-@lemma(props=["C09"], types=dict(d=Str), name="stateless-tests-dir-ignores-project-location")
-def stateless_tests_dir_location(d):
-    """Posed for a project two levels below `d` (d/work/<project>).
+@lemma(props=["C09"], types=dict(pre=Str), name="stateless-tests-dir-ignores-project-location")
+def stateless_tests_dir_location(pre):
+    """Posed for a project below /<pre>/tests/ (any pre).
     EXPECTED TO FAIL (C09-stateless-tests-dir-in-parent-dirs)."""
-    if not comp_ok(d):
+    if not comp_ok(pre):
         return True
-    return call(SLA + "_is_in_tests_directory", "/" + d + "/work/src/x.py") == call(SLA + "_is_in_tests_directory", "src/x.py")
+    return call(SLA + "_is_in_tests_directory", "/" + pre + "/tests/proj/src/x.py") == call(SLA + "_is_in_tests_directory", "src/x.py")
 
 
 @lemma(props=["C09"], types=dict(pre=Str, rel=Str, pat=Str, config=SRPConfigT), name="per-linter-ignores-location-adjusted")
